@@ -1,3 +1,65 @@
-From Bfe Require Import lib.Val model.CondPrim run.RunC17.
-Theorem C17_tmp : True. Proof. exact I. Qed.
-Print Assumptions C17_tmp.
+(* C17: condition parsing and building are total and type-checked.  Property theorems only.
+   Model: prototype_check (semant.go) and build_call (build.go:buildPrimitive + the matcher constructors of
+   primitive.go) interpreted over coq/gen/CondProtos.v, which the translator regenerates from funcProtos and
+   from the case clauses of buildPrimitive on every run.  External parsers (net.ParseIP, regexp.Compile,
+   bfe_util.ParseTime/ParseTimeOfDay) are the fields of [ext], universally quantified here. *)
+From Coq Require Import List ZArith Bool.
+From Bfe Require Import lib.Val lib.Bytes gen.CondProtos model.CondParse model.CondPrim proofs.CondPrimProofs run.RunC17.
+Import ListNotations.
+Open Scope Z_scope.
+
+(* Every primitive that prototypeCheck accepts has a case clause in buildPrimitive (and vice versa), and the
+   default clause returns an error: no accepted name falls through to a nil condition. *)
+Theorem C17_every_proto_has_builder : every_proto_has_builder = true /\ every_builder_has_proto = true /\ default_rejects = true.
+Proof. exact (conj every_proto_has_builder_ok (conj every_builder_has_proto_ok default_rejects_ok)). Qed.
+Print Assumptions C17_every_proto_has_builder.
+
+(* After prototypeCheck has accepted a call name(args), every node.Args[k] that the selected case clause of
+   buildPrimitive evaluates has k < len(args): building cannot panic with an index out of range. *)
+Theorem C17_arg_indices_in_range : forall name (args : list arg),
+  prototype_check protos name (map fst args) = 0 -> build_index_ok name (length args) = true.
+Proof. exact indices_in_range_after_check. Qed.
+Print Assumptions C17_arg_indices_in_range.
+
+(* prototypeCheck accepts exactly the calls whose name is a known primitive and whose argument kinds are,
+   in number and type, those of its prototype; unknown names, wrong counts and wrong kinds get distinct errors. *)
+Theorem C17_arity_and_kind_checked : forall name kinds,
+  prototype_check protos name kinds = 0 <-> lookup name protos = Some kinds.
+Proof. exact proto_check_exact. Qed.
+Print Assumptions C17_arity_and_kind_checked.
+Theorem C17_unknown_rejected : forall name kinds, lookup name protos = None -> prototype_check protos name kinds = 1.
+Proof. exact unknown_rejected. Qed.
+Print Assumptions C17_unknown_rejected.
+
+(* An accepted hash section "a-b" / "n" only addresses existing buckets: 0 <= a <= b < 10000
+   (so setHashBuckets never writes outside the 10000-entry table). *)
+Theorem C17_hash_section_bounds : forall sec a b,
+  hash_section sec = Some (a, b) -> 0 <= a /\ a <= b /\ b < HashBuckets.
+Proof. exact hash_section_bounds. Qed.
+Print Assumptions C17_hash_section_bounds.
+
+(* For all external parsers x, all names and all argument lists (any count, any kinds): the modelled Build of
+   the call name(args) returns an error EXACTLY when the call must be rejected according to the property text:
+   unknown primitive / wrong argument count / wrong argument types, or an invalid IP (list, range with mixed
+   families or start > end), a regular expression that does not compile, an invalid hash-bucket section, an invalid
+   or inverted time range / differing zones / non-empty period, or a port inside a req_host_in pattern. *)
+Theorem C17_build_rejects_exactly_invalid : forall x name args,
+  build_call x name args = None <-> must_reject x name args = true.
+Proof. exact build_call_reject. Qed.
+Print Assumptions C17_build_rejects_exactly_invalid.
+
+(* Every implementation observation that agrees with the model satisfies the executable property (0 or 1,
+   never a panic/hang marker; 1 exactly on must-reject inputs; composites: syntax errors and identifiers rejected). *)
+Theorem C17_agree_implies_prop : forall i o, agree_C17 i o = true -> prop_C17 i o = true.
+Proof. exact agree_implies_prop_C17. Qed.
+Print Assumptions C17_agree_implies_prop.
+
+(* Non-vacuity: concrete calls. *)
+Example C17_ex_accept : forall x, build_call x (* "req_path_in" *) [114;101;113;95;112;97;116;104;95;105;110]
+                                     [(1, [47;97]); (2, [116;114;117;101])] <> None.
+Proof. intros x. vm_compute. discriminate. Qed.
+Example C17_ex_kind : forall x, build_call x [114;101;113;95;112;97;116;104;95;105;110] [(1, [47;97]); (1, [116;114;117;101])] = None.
+Proof. intros x. reflexivity. Qed.
+Example C17_ex_hash : hash_section [49;48;48;45;50;48;48] = Some (100, 200) /\ hash_section [53;45;52] = None
+                      /\ hash_section [49;48;48;48;48] = None.
+Proof. repeat split; reflexivity. Qed.
